@@ -179,7 +179,7 @@ func imageOf(v reflect.Value, hint string, sortKeys bool) (*model.Value, bool) {
 			tm := v.Interface().(time.Time)
 			_, off := tm.Zone()
 			ts := model.TS{Y: tm.Year(), M: int(tm.Month()), D: tm.Day(), H: tm.Hour(), Mi: tm.Minute(), S: tm.Second(), Nanos: tm.Nanosecond(),
-				FracDigits: 9, Prec: model.PSecond, OffKnown: true, OffMin: off / 60}
+				FracDigits: 9, Prec: model.PSecond, OffKnown: true, OffMin: off / 60, AnyFrac: true} // (a time.Time has no precision of its own)
 			return model.TSV(ts), true
 		}
 		fis := fieldsOf(t)
